@@ -121,9 +121,15 @@ def check_text(res, fam, uri, expect, case, exp_view=None, stable=True):
     # the options are those of this URI whatever the message carried before: set on a message that was given another URI first, and
     # through copy(uri=...) of such a message, the outcome is that of a fresh message
     # (CoAP URIs only: a URI of another scheme becomes Proxy-Uri and is sent to whatever destination the message has)
-    for how, pred in (("set-again", PREDECESSOR), ("copy", PREDECESSOR), ("copy", PREDECESSOR_PROXY)) if v["proxy"] is None else ():
+    # the nearest possible predecessor: the same URI under another scheme (same authority, path and query)
+    sch = uri.split(":", 1)[0]
+    twin = ("coaps" if sch.lower() != "coaps" else "coap+tcp") + uri[len(sch):]
+    for how, pred in (("set-again", PREDECESSOR), ("copy", PREDECESSOR), ("copy", PREDECESSOR_PROXY), ("copy", twin)) if v["proxy"] is None else ():
         def again():
-            old = decompose(pred)
+            try:
+                old = decompose(pred)
+            except (error.MalformedUrlError, error.IncompleteUrlError):
+                return decompose(uri)       # (the twin of a URI that is only acceptable under its own scheme: nothing to compare)
             if how == "copy":
                 return old.copy(uri=uri)
             old.set_request_uri(uri)
